@@ -105,8 +105,7 @@ class C05:
                "RuntimeError / EmulatorError / RecursionError are compared as the class OtherError (not in the shared enum)"]
     ASSUMPTIONS = ["settings.sampler_probability_threshold = 1e-9 (default); theorems about the Sampler are stated for threshold 0",
                    "error_rate: a zero row of the analyzer array gives nan in the code (no guard); compared as nan, skipped when a row total < 1e-6",
-                   "a state repeated inside an `expected` list: the oracle uses the SET of expected outputs (property text); the code subtracts per "
-                   "occurrence: flagged with signature analyzer-error-rate-duplicate-expected"]
+                   "a state repeated inside an `expected` list counts once: the oracle uses the SET of expected outputs"]
 
     # ------------------------------------------------------------------ generation
     def _support(self, prog, cid, inp):
@@ -612,14 +611,7 @@ class C05:
             yield d
 
     def signature(self, c, rec):
-        """finding: a state repeated in an `expected` list is subtracted once per occurrence. Only when this is the ONLY
-        failure of the case, the model agrees with the implementation, and the case really has such a repetition."""
-        text = rec.get("oracle") or ""
-        if rec.get("diff") or " ;; " in text:
-            return None
-        if text.startswith("Analyzer error_rate") and text.endswith("(an expected list repeats a state)"):
-            return "analyzer-error-rate-duplicate-expected"
-        return None
+        return None      # no known finding is recorded for C05 (F6, N14, vacuum/threshold, repeated expected state: all repaired)
 
 
 PROP = C05()
